@@ -141,12 +141,18 @@ def main():
     ap.add_argument('--skip-tests', action='store_true')
     ap.add_argument('--jobs', type=int, default=2)
     ap.add_argument('--props', help='comma list: run these checks instead of the ones the mutant names')
+    ap.add_argument('--within', help='comma list: of the checks each item names, run only those in this list')
     ap.add_argument('--results', help='write a markdown table of the outcomes here')
     args = ap.parse_args()
     muts = discover(args.only + args.names)
     if args.props:
         for m in muts:
             m['props'] = args.props.split(',')
+    if args.within:
+        keep = set(args.within.split(','))
+        for m in muts:
+            m['props'] = [x for x in m['props'] if x in keep]
+        muts = [m for m in muts if m['props']]
     if not muts:
         print('no mutants selected')
         return 2
